@@ -930,6 +930,12 @@ Section Proofs.
   Qed.
   Theorem lanelet_move_any : forall l m, LCoh W (fst (lstep W l (LMove W m))) /\ LCoh W (fst (lstep W l (LConv2d W))).
   Proof. intros l m. split; apply l_set_verts_coh. Qed.
+  (* the vertex setters (whatever caches the lanelet held before) *)
+  Theorem lanelet_set_verts_any : forall l v,
+    LCoh W (fst (lstep W l (LSetVerts W v))) /\
+    snd (lstep W (fst (lstep W l (LSetVerts W v))) (LQDist W)) = LRDists W (dist_of W v) /\
+    snd (lstep W (fst (lstep W l (LSetVerts W v))) (LQPoly W)) = LRRing W (poly_of W v).
+  Proof. intros l v. split; [apply l_set_verts_coh | split; reflexivity]. Qed.
 
   (* --- update_initial_state *)
   Theorem update_initial_state_spec : forall o cur sg cen shp m, 0 < m ->
